@@ -216,11 +216,9 @@ var indexConfirmed = map[string]map[indexClass]int{
 	"(*fileDecorator).fragment": {"var": 3},
 	// endFrags[0:len-1] and endFrags[len-1] under len(endFrags) > 0
 	"(*fileDecorator).link": {"var": 1, "const": 1, "last": 1},
-	// f.fragments[i] with i bounded by the loop condition
-	"(*fileDecorator).findDecoration": {"var": 1},
-	"(*fileDecorator).findNode":       {"var": 1},
-	// f.fragments[i] loop-bounded; frags[stage] on a [2] array with stage ∈ {0, 1}
-	"(*fileDecorator).findIndentedComments": {"var": 7},
+	// (f.fragments[i], f.fragments[from], f.fragments[from-1] are proven by loopBounded)
+	// frags[stage] on a [2] array with stage ∈ {0, 1}
+	"(*fileDecorator).findIndentedComments": {"var": 6},
 	// decs[len(decs)-1] under len(decs) > 0
 	"appendNewLine": {"last": 1},
 	// v[len(v)-1] after `if len(v) == 0 { continue }`
@@ -230,6 +228,7 @@ var indexConfirmed = map[string]map[indexClass]int{
 func (e *Env) RIndex() {
 	pkg := e.Prog.Pkg(load.PkgDecorator)
 	info := pkg.TypesInfo
+	nonNegParamFiles = pkg.Syntax
 	type site struct {
 		pos  token.Pos
 		expr string
@@ -359,6 +358,9 @@ func (e *Env) RIndex() {
 				default:
 					if id, ok := x.Index.(*ast.Ident); ok && rangeKey[info.Uses[id]] == types.ExprString(x.X) {
 						return true // the range key of the same slice
+					}
+					if loopBounded(info, fd, x) {
+						return true // proven by the enclosing loop's condition
 					}
 					add("var", x.Pos(), x)
 				}
@@ -510,4 +512,241 @@ func (e *Env) RNilResults() {
 	}
 	e.Run.Analysed("call sites of nil-able helpers", n)
 	e.Run.Floor("R-NILRESULT", "call sites of helpers with a nil-able pointer result", n, 1)
+}
+
+// loopBounded proves S[E] in range from the enclosing `for i := from; … i < len(S) … i >= 0 …; post`
+// loop (S not assigned inside the loop, i written only by the post statement):
+//   - E is i;
+//   - E is `from`, the unassigned variable i starts from (the body only runs while i is in
+//     range, the first time with i == from, and len(S) does not change);
+//   - E is `from - 1` at a point dominated by `from > 0` in the same if condition.
+func loopBounded(info *types.Info, fd *ast.FuncDecl, x *ast.IndexExpr) bool {
+	base := types.ExprString(x.X)
+	var loop *ast.ForStmt
+	ast.Inspect(fd.Body, func(n ast.Node) bool {
+		if fs, ok := n.(*ast.ForStmt); ok && fs.Body.Pos() <= x.Pos() && x.End() <= fs.Body.End() {
+			loop = fs // innermost wins (visited last)
+		}
+		return true
+	})
+	if loop == nil || loop.Init == nil || loop.Cond == nil {
+		return false
+	}
+	init, ok := loop.Init.(*ast.AssignStmt)
+	if !ok || init.Tok != token.DEFINE || len(init.Lhs) != 1 || len(init.Rhs) != 1 {
+		return false
+	}
+	iv, ok := init.Lhs[0].(*ast.Ident)
+	if !ok {
+		return false
+	}
+	iObj := info.Defs[iv]
+	// condition: conjunction containing i < len(S) and (i >= 0 or the loop only counts up from a non-negative start)
+	upper, lower := false, false
+	var conj func(e ast.Expr)
+	conj = func(e ast.Expr) {
+		e = ast.Unparen(e)
+		if be, ok := e.(*ast.BinaryExpr); ok {
+			if be.Op == token.LAND {
+				conj(be.X)
+				conj(be.Y)
+				return
+			}
+			if id, ok := be.X.(*ast.Ident); ok && info.Uses[id] == iObj {
+				if be.Op == token.LSS && types.ExprString(be.Y) == "len("+base+")" {
+					upper = true
+				}
+				if be.Op == token.GEQ && types.ExprString(be.Y) == "0" {
+					lower = true
+				}
+			}
+		}
+	}
+	conj(loop.Cond)
+	if !lower {
+		if _, isInc := loop.Post.(*ast.IncDecStmt); isInc && loop.Post.(*ast.IncDecStmt).Tok == token.INC {
+			if tv, ok := info.Types[init.Rhs[0]]; ok && tv.Value != nil && tv.Value.String() == "0" {
+				lower = true
+			}
+			// counting up from a parameter that every call site (same file set of functions) sets
+			// to a range key plus a non-negative constant
+			if pid, ok := ast.Unparen(init.Rhs[0]).(*ast.Ident); ok && nonNegParam(info, fd, info.Uses[pid]) {
+				lower = true
+			}
+		}
+	}
+	if !upper || !lower {
+		return false
+	}
+	// no write to i or to S inside the body
+	clean := true
+	ast.Inspect(loop.Body, func(n ast.Node) bool {
+		switch s := n.(type) {
+		case *ast.AssignStmt:
+			for _, l := range s.Lhs {
+				if id, ok := l.(*ast.Ident); ok && info.Uses[id] == iObj {
+					clean = false
+				}
+				if types.ExprString(l) == base {
+					clean = false
+				}
+			}
+		case *ast.IncDecStmt:
+			if id, ok := s.X.(*ast.Ident); ok && info.Uses[id] == iObj {
+				clean = false
+			}
+		}
+		return true
+	})
+	if !clean {
+		return false
+	}
+	idx := ast.Unparen(x.Index)
+	if id, ok := idx.(*ast.Ident); ok && info.Uses[id] == iObj {
+		return true
+	}
+	from, ok := ast.Unparen(init.Rhs[0]).(*ast.Ident)
+	if !ok {
+		return false
+	}
+	fObj := info.Uses[from]
+	// from is never assigned in the function
+	assigned := false
+	ast.Inspect(fd.Body, func(n ast.Node) bool {
+		switch s := n.(type) {
+		case *ast.AssignStmt:
+			for _, l := range s.Lhs {
+				if id, ok := l.(*ast.Ident); ok && info.Uses[id] == fObj {
+					assigned = true
+				}
+			}
+		case *ast.IncDecStmt:
+			if id, ok := s.X.(*ast.Ident); ok && info.Uses[id] == fObj {
+				assigned = true
+			}
+		case *ast.UnaryExpr:
+			if id, ok := s.X.(*ast.Ident); ok && s.Op == token.AND && info.Uses[id] == fObj {
+				assigned = true
+			}
+		}
+		return true
+	})
+	if assigned {
+		return false
+	}
+	if id, ok := idx.(*ast.Ident); ok && info.Uses[id] == fObj {
+		return true
+	}
+	// from - 1 under `from > 0 && …` in the innermost enclosing if condition (left of the use)
+	if be, ok := idx.(*ast.BinaryExpr); ok && be.Op == token.SUB && types.ExprString(be.Y) == "1" {
+		if id, ok := be.X.(*ast.Ident); ok && info.Uses[id] == fObj {
+			guarded := false
+			ast.Inspect(loop.Body, func(n ast.Node) bool {
+				is, ok := n.(*ast.IfStmt)
+				if !ok || !(is.Cond.Pos() <= x.Pos() && x.End() <= is.Cond.End()) {
+					return true
+				}
+				var walk func(e ast.Expr)
+				walk = func(e ast.Expr) {
+					e = ast.Unparen(e)
+					if b2, ok := e.(*ast.BinaryExpr); ok && b2.Op == token.LAND {
+						// the use must be in the right operand of an && whose left side has from > 0
+						if b2.Y.Pos() <= x.Pos() && x.End() <= b2.Y.End() {
+							var has func(e ast.Expr) bool
+							has = func(e ast.Expr) bool {
+								e = ast.Unparen(e)
+								if b3, ok := e.(*ast.BinaryExpr); ok {
+									if b3.Op == token.LAND {
+										return has(b3.X) || has(b3.Y)
+									}
+									if l, ok := b3.X.(*ast.Ident); ok && info.Uses[l] == fObj && b3.Op == token.GTR && types.ExprString(b3.Y) == "0" {
+										return true
+									}
+								}
+								return false
+							}
+							if has(b2.X) {
+								guarded = true
+							}
+							walk(b2.Y)
+						} else {
+							walk(b2.X)
+						}
+					}
+				}
+				walk(is.Cond)
+				return true
+			})
+			return guarded
+		}
+	}
+	return false
+}
+
+// nonNegParam: p is a parameter of fd and every call of fd in the files that were type-checked
+// with it passes, for p, a non-negative constant or `<range key or loop index> + <non-negative
+// constant>`.
+var nonNegParamFiles []*ast.File
+
+func nonNegParam(info *types.Info, fd *ast.FuncDecl, p types.Object) bool {
+	idx := -1
+	k := 0
+	for _, f := range fd.Type.Params.List {
+		for _, nm := range f.Names {
+			if info.Defs[nm] == p {
+				idx = k
+			}
+			k++
+		}
+	}
+	if idx < 0 {
+		return false
+	}
+	target := info.Defs[fd.Name]
+	calls, good := 0, true
+	for _, file := range nonNegParamFiles {
+		var ranges []*ast.RangeStmt
+		ast.Inspect(file, func(n ast.Node) bool {
+			if rs, ok := n.(*ast.RangeStmt); ok {
+				ranges = append(ranges, rs)
+			}
+			call, ok := n.(*ast.CallExpr)
+			if !ok || idx >= len(call.Args) {
+				return true
+			}
+			if fn := calleeFunc(info, call); fn == nil || types.Object(fn) != target {
+				return true
+			}
+			calls++
+			arg := ast.Unparen(call.Args[idx])
+			nonNegConst := func(x ast.Expr) bool {
+				tv, ok := info.Types[x]
+				return ok && tv.Value != nil && !strings.HasPrefix(tv.Value.String(), "-")
+			}
+			isKey := func(x ast.Expr) bool {
+				id, ok := ast.Unparen(x).(*ast.Ident)
+				if !ok {
+					return false
+				}
+				for _, rs := range ranges {
+					if kid, ok := rs.Key.(*ast.Ident); ok && info.Defs[kid] == info.Uses[id] && rs.Body.Pos() <= call.Pos() && call.End() <= rs.Body.End() {
+						if _, isMap := info.TypeOf(rs.X).Underlying().(*types.Map); !isMap {
+							return true
+						}
+					}
+				}
+				return false
+			}
+			switch {
+			case nonNegConst(arg), isKey(arg):
+			default:
+				if be, ok := arg.(*ast.BinaryExpr); ok && be.Op == token.ADD && ((isKey(be.X) && nonNegConst(be.Y)) || (nonNegConst(be.X) && isKey(be.Y))) {
+					break
+				}
+				good = false
+			}
+			return true
+		})
+	}
+	return calls > 0 && good
 }
